@@ -341,6 +341,9 @@ package builder
 
 // An evaluation event of a terminal counts iff (matched == inverted): a failure outside a negative
 // predicate, or a match inside one.
+// the farthest-failure record of a running parser is written by failAt alone: every other function changes it only
+// through the failure events of the terminals it evaluates, so no recorded failure is ever taken back (C12)
+//@ only-writer parser.maxFailPos parser.maxFailExpected : parser.failAt [far-writer C12]
 //@ pred Counted(p *parser, matched bool) bool = matched == p.maxFailInvertExpected
 //@ pred Wanted(p *parser, want string) string = ite(p.maxFailInvertExpected, "!" + want, want)
 //@ func (p *parser) failAt(fail bool, pos position, want string)
